@@ -69,6 +69,7 @@ func sliceLiteralElems(v ssa.Value) []ssa.Value {
 
 func runC12(c *Ctx) {
 	p := c.P
+	defer runC12ParseFailureRejects(c)
 
 	// ---------------------------------------------------------------- C12.1
 	c.Rule("C12.1", "the 'no timeout' sentinel is filtered before it can become a rejection", 3)
@@ -700,4 +701,95 @@ func runC12ExactDecoders(c *Ctx) {
 func isFloatType(t types.Type) bool {
 	b, ok := t.Underlying().(*types.Basic)
 	return ok && b.Info()&types.IsFloat != 0
+}
+
+// runC12ParseFailureRejects: C12.7 (seed C12g).  A header value whose number does not parse is
+// malformed, and a malformed timeout must be a rejection.  From every strconv.ParseInt / ParseUint /
+// Atoi in request-time functions that return an error, a successful return (nil error) is reached
+// only on paths that know the parse error was nil - tested on the value the parse returned, not on
+// a variable that was overwritten in between ("range error: clamp and carry on" accepts
+// -99999999999999999999 as the maximum timeout).
+func runC12ParseFailureRejects(c *Ctx) {
+	p := c.P
+	c.Rule("C12.7", "a failed numeric parse never leads to a successful return", 2)
+	n := 0
+	for _, fn := range SortedFuncs(p.RequestTimeReach()) {
+		if !p.inScope(fn) {
+			continue
+		}
+		ei := errorResultIndex(fn.Signature)
+		if ei < 0 {
+			continue
+		}
+		ord := 0
+		for _, call := range Calls(fn) {
+			if !IsCallTo(call, "strconv.ParseInt", "strconv.ParseUint", "strconv.Atoi") {
+				continue
+			}
+			cv, ok := call.(*ssa.Call)
+			if !ok {
+				continue
+			}
+			var perr ssa.Value
+			for _, ref := range *cv.Referrers() {
+				if ex, isEx := ref.(*ssa.Extract); isEx && ex.Index == 1 {
+					perr = ex
+				}
+			}
+			if perr == nil || perr.Referrers() == nil || len(*perr.Referrers()) == 0 {
+				continue // the error is discarded on purpose (input validated beforehand): not this rule's business
+			}
+			n++
+			ord++
+			started := false
+			isEnd := func(in ssa.Instruction) bool {
+				if in == ssa.Instruction(call) {
+					started = true
+					return false
+				}
+				if in.Block() == call.Block() && !started {
+					return false
+				}
+				return IsReturn(in)
+			}
+			paths, okP := EnumPaths(call.Block(), nil, isEnd, 0)
+			construct := "parse-failure-rejects:" + CalleeName(call)
+			if ord > 1 {
+				construct += "|#" + itoa(ord)
+			}
+			if !okP {
+				c.Unknown("C12.7", FuncName(fn), construct, call.Pos(), "too many paths")
+				continue
+			}
+			bad := 0
+			for _, cp := range paths {
+				rv := ReturnValues(cp.End.(*ssa.Return))
+				if ei >= len(rv) || !IsNilConst(cp.Deref(rv[ei])) {
+					continue
+				}
+				knows := false
+				for cond, truth := range cp.Truth {
+					b, isB := cond.(*ssa.BinOp)
+					if !isB || !IsNilConst(b.Y) {
+						continue
+					}
+					if resolveVal(b.X, cp.Blocks) != perr && b.X != perr {
+						continue
+					}
+					if b.Op == token.NEQ && !truth || b.Op == token.EQL && truth {
+						knows = true
+					}
+				}
+				if !knows {
+					bad++
+				}
+			}
+			c.Check(bad == 0, "C12.7", FuncName(fn), construct, call.Pos(),
+				"every successful return after this parse knows that the parse error was nil",
+				itoa(bad)+" path(s) return success after this numeric parse without knowing that its error was nil (the error was overwritten or never tested): a value that does not parse - e.g. out of range, negative overflow included - is accepted instead of rejected")
+		}
+	}
+	if n < 2 {
+		c.Bad("C12.7", "request-time code", "parse-failure-rejects", token.NoPos, "fewer than two numeric parses in error-returning request-time functions ("+itoa(n)+"): shape changed")
+	}
 }
